@@ -920,8 +920,8 @@ class FormulaManager(object):
                                 args=(left, right))
 
     def BVComp(self, left: FNode, right: FNode) -> FNode:
-        """Returns a BV of size 1 equal to 0 if left is equal to right,
-        otherwise 1 is returned."""
+        """Returns a BV of size 1 equal to 1 if left is equal to right,
+        otherwise 0 is returned."""
         return self.create_node(node_type=op.BV_COMP,
                                 args=(left, right),
                                 payload=(1,))
